@@ -350,7 +350,12 @@ CLAIMED["C09"] = (
     "call (outcome, stored element, readers), each call through a held or a new proxy.  shape.adjustments (Model/Adjust, "
     "Props/C09A): index i reads v after adjustments[i] = v and every other adjustment what it read before, for ANY guides "
     "(missing, repeated, foreign names), after any history through any number of proxies (run_read); compared with the real "
-    "collection on foreign guide lists.",
+    "collection on foreign guide lists.  Paragraph spacing (Model/Spacing, Props/C09S): line_spacing / space_before / "
+    "space_after over a:lnSpc / a:spcBef / a:spcAft from ANY start state (no a:pPr, both children, neither): an accepted value "
+    "reads back as stored (read_after_set, emu_quantum: less than one centipoint below), None always restores inheritance, refused "
+    "exactly outside 0..20116800 EMU / 0..132 lines with every reading unchanged, the three are independent (read_other), the "
+    "element left holds exactly one child (slot_wf_after_set), and after ANY history each reads the last accepted value assigned "
+    "to it (run_read); compared with the real paragraphs after every assignment.",
     "Property table and domains are written by hand from the docstrings (trusted input); couplings documented by the "
     "library are excepted from independence; floats are dyadic rationals in the exact comparison.  Seven enum-alias "
     "findings (shared with C20) are listed.",
